@@ -10,6 +10,7 @@ pub mod c10;
 pub mod c11;
 pub mod c12;
 pub mod c13;
+pub mod c14;
 pub mod common;
 
 pub fn run(ctx: &Ctx) -> Option<CheckOutput> {
@@ -24,6 +25,7 @@ pub fn run(ctx: &Ctx) -> Option<CheckOutput> {
 		"C11" => c11::run(ctx),
 		"C12" => c12::run(ctx),
 		"C13" => c13::run(ctx),
+		"C14" => c14::run(ctx),
 		_ => return None,
 	})
 }
@@ -52,6 +54,7 @@ pub fn replay_file(path: &str) -> i32 {
 			"C11" => c11::replay(case),
 			"C12" => c12::replay(case),
 			"C13" => c13::replay(case),
+			"C14" => c14::replay(case),
 			_ => Some(format!("no replayer for {prop}")),
 		}
 	};
